@@ -181,6 +181,25 @@ def case_st(draw):
     return c
 
 
+# long grids: one axis with up to 256 points.  Half of the cases take the length from the numbers n whose
+# reciprocal is not exactly invertible in floating point ((1/n)*n != 1: 49, 98, 103, 107, ...), the classic place
+# where a grid built from a float step gains or loses a point.
+FLOAT_PITFALL_N = [n for n in range(2, 257) if (1.0 / n) * n != 1.0]
+
+
+@st.composite
+def long_case_st(draw):
+    n = draw(st.one_of(st.sampled_from(FLOAT_PITFALL_N), st.integers(2, 256)))
+    ax = draw(st.integers(0, 2))
+    N = [1, 1, 1]
+    N[ax] = n
+    c = _common(draw, N)
+    c["ne"] = min(c["ne"], 3)
+    c.update(syskind="plain", model=draw(bgrid.model_st(max_wann=2, max_npairs=3, rmax=1)), irred=False,
+             calcs=[["s:CumDOS", False], ["s:AHC_internal", False]] if draw(st.booleans()) else [["s:Ohmic_FermiSea", False], ["s:DOS", False]])
+    return c
+
+
 KP_ALPHAS = [(0, 0, 0), (1, 0, 0), (0, 1, 0), (0, 0, 1), (2, 0, 0), (0, 2, 0), (0, 0, 2), (1, 1, 0), (1, 0, 1), (0, 1, 1),
              (3, 0, 0), (1, 1, 1), (0, 2, 1)]
 
@@ -376,4 +395,5 @@ def check(case):
 import os as _os
 _BS = float(_os.environ.get("VERIF_BUDGET_SCALE", "1") or 1)
 SUBS = [Sub("run", case_st(), check, quick=48, thorough=4800, budget_quick=70 * _BS, budget_thorough=500 * _BS),
+        Sub("long", long_case_st(), check, quick=24, thorough=480, budget_quick=60 * _BS, budget_thorough=300 * _BS),
         Sub("kp", kp_case_st(), check, quick=8, thorough=640, budget_quick=40 * _BS, budget_thorough=300 * _BS)]
